@@ -10,7 +10,7 @@ import z3
 from vf.common import CEX, HOLDS, ObResult, Unit
 from vf.pysym.engine import Engine
 from vf.pysym.harness import brief, conj, decide, model_value
-from vf.pysym.values import ModelRaise, SBytes, SFile, SStr
+from vf.pysym.values import ModelRaise, SBytes, SFile, SObj, SStr
 
 AI = "py7zr.archiveinfo"
 
@@ -61,9 +61,23 @@ def _validate_number(eng):
     n = 0
     for v in vals:
         f = SFile()
-        eng.call(AI, "write_uint64", f, v)
         real = io.BytesIO()
-        ai.write_uint64(real, v)
+        try:
+            eng.call(AI, "write_uint64", f, v)
+            mine = None
+        except ModelRaise as ex:
+            mine = ex.name
+        try:
+            ai.write_uint64(real, v)
+            theirs = None
+        except Exception as ex:  # noqa
+            theirs = type(ex).__name__
+        # the interpreter and the natively executed function must agree - also on raising (what the function *should*
+        # do is the obligation's business, not the validation's)
+        assert mine == theirs, ("write_uint64 raises", v, mine, theirs)
+        if mine is not None:
+            n += 1
+            continue
         assert bytes(f.items) == real.getvalue(), ("write_uint64", v)
         f.pos = 0
         assert eng.call(AI, "read_uint64", f) == ai.read_uint64(io.BytesIO(real.getvalue())) == v
@@ -342,7 +356,90 @@ def _cex(r, obligation, mk_replay, signature=None):
                       "replay": mk_replay(w), "detail": brief(obs)[:400]})
 
 
+def names_section(lengths):
+    """FilesInfo._write_names for names of symbolic code points: the declared property size equals the bytes that follow,
+    and _read_name gets every name back"""
+    r = ObResult(bounds="%d file(s) with names of %s code points, each symbolic over U+0001..U+10FFFF minus surrogates and "
+                        "backslash; the Names property as _write_names emits it" % (len(lengths), lengths))
+    eng = Engine([AI], intmode="bv")
+    cps = [[eng.sym_int("n%dc%d" % (i, j), 21) for j in range(n)] for i, n in enumerate(lengths)]
+
+    def harness(e):
+        for row in cps:
+            for c in row:
+                e.assume(z3.And(c >= 1, c <= 0x10FFFF, z3.Or(c < 0xD800, c > 0xDFFF), c != 0x5C))
+        fi = SObj(e.cls(AI, "FilesInfo"))
+        fi.attrs["files"] = [{"filename": SStr(row)} for row in cps]
+        f = SFile()
+        e.method(fi, "_write_names", f)
+        items = list(f.items)
+        if not items or items[0] != 0x11:
+            return dict(bad="property id")
+        g = SFile(items)
+        g.pos = 1
+        size = e.call(AI, "read_uint64", g)
+        start = g.pos
+        ext = g.items[g.pos] if g.pos < len(g.items) else None
+        g.pos += 1
+        rd = SObj(e.cls(AI, "FilesInfo"))
+        rd.attrs["files"] = [{} for _ in cps]
+        try:
+            e.method(rd, "_read_name", g)
+        except ModelRaise as ex:
+            return dict(bad="read raised " + ex.name)
+        return dict(size=size, follows=len(items) - start, consumed=g.pos - start, ext=ext, names=[x.get("filename") for x in rd.attrs["files"]])
+
+    def post(o):
+        if "bad" in o:
+            return False
+        c = [e_eq(eng, o["size"], o["follows"]), o["consumed"] == o["follows"], o["ext"] == 0]
+        for got, want in zip(o["names"], cps):
+            g = [ord(ch) for ch in got] if isinstance(got, str) else got.cps
+            if len(g) != len(want):
+                return False
+            c += [e_eq(eng, a, b) for a, b in zip(g, want)]
+        return c
+
+    decide(eng, harness, post, {"n%dc%d" % (i, j): c for i, row in enumerate(cps) for j, c in enumerate(row)}, r,
+           describe=lambda o: o.get("bad") or "size field %s, %d bytes follow" % (brief(o["size"]), o["follows"]))
+    _cex(r, "names_section", lambda w: dict(module="vf.props.c17", func="replay_names", kwargs=dict(
+        names=[[int(w["n%dc%d" % (i, j)]) for j in range(n)] for i, n in enumerate(lengths)])))
+    return r
+
+
 # ---------------------------------------------------------------------------------------- replays
+def _legal_input(fn):
+    """the replays below feed the real primitives inputs from their documented domain: an exception IS the violation"""
+    import functools
+
+    @functools.wraps(fn)
+    def wrapper(*a, **k):
+        try:
+            return fn(*a, **k)
+        except Exception as e:  # noqa
+            return True, "the real function raised %r on a legal input %r %r" % (e, a, k)
+
+    return wrapper
+
+
+@_legal_input
+def replay_names(names):
+    import py7zr.archiveinfo as ai
+
+    strs = ["".join(chr(c) for c in row) for row in names]
+    fi = ai.FilesInfo()
+    fi.files = [{"filename": x} for x in strs]
+    b = io.BytesIO()
+    fi._write_names(b)
+    raw = b.getvalue()
+    f = io.BytesIO(raw)
+    f.read(1)
+    size = ai.read_uint64(f)
+    follows = len(raw) - f.tell()
+    return size != follows, "names %r: declared property size %d, %d bytes follow" % (strs, size, follows)
+
+
+@_legal_input
 def replay_number(v):
     import py7zr.archiveinfo as ai
 
@@ -368,6 +465,7 @@ def replay_decode(data):
     return (got != sv or f.tell() != sn), "bytes=%s read=(%d,%d) spec=(%d,%d)" % (data, got, f.tell(), sv, sn)
 
 
+@_legal_input
 def replay_boolean(vec, alldef):
     import py7zr.archiveinfo as ai
 
@@ -378,6 +476,7 @@ def replay_boolean(vec, alldef):
     return (got != vec or f.tell() != len(b.getvalue())), "vec=%s bytes=%s got=%s" % (vec, b.getvalue().hex(), got)
 
 
+@_legal_input
 def replay_utf16(cps):
     import py7zr.archiveinfo as ai
 
@@ -392,6 +491,7 @@ def replay_utf16(cps):
     return (got != s or f.tell() != len(b.getvalue())), "%r -> %r" % (s, got)
 
 
+@_legal_input
 def replay_crcs(crcs, q):
     import py7zr.archiveinfo as ai
 
@@ -404,6 +504,7 @@ def replay_crcs(crcs, q):
     return (got != crcs or qq != q), "%s %s" % (got, qq)
 
 
+@_legal_input
 def replay_times_attrs(kind, defined, values):
     """through the section reader the archive reader uses: FilesInfo.write -> FilesInfo._read"""
     import py7zr.archiveinfo as ai
@@ -444,6 +545,8 @@ def units(tier):
                        {"lo": lo, "hi": min(lo + step - 1, 130)}, 300))
     for n in range(0, 5 if tier == "quick" else 7):
         us.append(Unit("d.utf16[len=%d]" % n, M, "utf16", {"n": n}, 600))
+    for ls in ([[1], [2], [1, 1], [0, 2]] if tier == "quick" else [[1], [2], [3], [1, 1], [0, 2], [2, 2], [1, 1, 1]]):
+        us.append(Unit("d.names_section%s" % ls, M, "names_section", {"lengths": ls}, 900))
     for n in (0, 1, 3):
         us.append(Unit("e.fixed_lists[n=%d]" % n, M, "fixed_lists", {"n": n}, 300))
     for n in range(1, 6 if tier == "quick" else 10):
